@@ -932,7 +932,41 @@ def adoption_inner_loop(ctx):
            "html5ever tree_builder adoption_agency")
 
 
-FACTS = (small_helpers, dispatcher, marker_or_open, ignore_lf_one_token, insert_an_element, adoption_inner_loop, marker_bounded, in_scope, implied_end_tags, pop_until, appropriate_place, any_other_end_tag, clear_to_marker, close_the_cell, reconstruct, adoption_bailouts)
+
+
+def foreign_breakout(ctx):
+    """a breakout start tag in foreign content ('pop ... until the current node is a MathML text integration point, an HTML
+    integration point, or an element in the HTML namespace'): a pop happens only after all four stop conditions were found
+    false for the current node - HTML namespace, MathML text integration point, the SVG HTML integration points, and
+    annotation-xml whose encoding makes it one (asked from the sink, like the dispatcher does) - and the token is then
+    processed by the rules of the current insertion mode"""
+    key, pcs = nfq.cells(ctx, TB, "TreeBuilder<Handle,Sink>::unexpected_start_tag_in_foreign_content")
+    bad = None
+    pops = 0
+    done = 0
+    for pc in nfq.feasible(pcs):
+        names = [a for a, _ in _acts(pc)]
+        false_text = " ".join(k for k, v in pc["guards"].items() if v is False)
+        if "self.pop" in names:
+            pops += 1
+            need = [("http://www.w3.org/1999/xhtml", "an element in the HTML namespace"), ("mathml_text_integration_point", "a MathML text integration point"),
+                    ("svg_html_integration_point", "an SVG HTML integration point (foreignObject, desc, title)")]
+            for tok, what in need:
+                if tok not in false_text:
+                    bad = bad or "an element is popped without having established that the current node is not %s" % what
+            if "is_mathml_annotation_xml_integration_point" not in false_text and "annotation-xml" not in false_text:
+                bad = bad or ("an element is popped without having established that the current node is not a MathML annotation-xml HTML integration point "
+                              "(encoding text/html or application/xhtml+xml): '<math><annotation-xml encoding=text/html><svg><b>' pops the annotation-xml and the math element")
+        if _loop_exit(pc) == "break" or str(pc["ret"]).startswith("self.step("):
+            done += 1
+            if not any(a == "self.step" and args and args[0] == "self.mode.get()" for a, args in _acts(pc)):
+                bad = bad or "after the pops the token is not processed by the rules of the current insertion mode"
+    ctx.ob(RULE, "foreign-breakout-stops-at-integration-points", bad is None and pops >= 1 and done >= 1, bad or
+           "%d popping paths each exclude HTML namespace / MathML text / SVG HTML / annotation-xml integration points first; %d exits reprocess in the current mode" % (pops, done),
+           "html5ever tree_builder unexpected_start_tag_in_foreign_content")
+
+
+FACTS = (foreign_breakout, small_helpers, dispatcher, marker_or_open, ignore_lf_one_token, insert_an_element, adoption_inner_loop, marker_bounded, in_scope, implied_end_tags, pop_until, appropriate_place, any_other_end_tag, clear_to_marker, close_the_cell, reconstruct, adoption_bailouts)
 
 
 def run(ctx):
